@@ -350,6 +350,14 @@ class Resolver:
                         m = self.p.method(r, rest[0])
                         if m is not None:
                             return Callee("func", func=m, recv=f.value, recv_type=r)
+            # receiver of unknown type: a *private* method name that exactly one class of the
+            # package defines can only be that method (private names are not part of anybody
+            # else's interface)
+            if f.attr.startswith("_") and not f.attr.startswith("__"):
+                owners = [ci for ci in self.p.classes.values() if f.attr in ci.methods]
+                roots = [ci for ci in owners if not any(o is not ci and self.p.is_subclass(ci, o.name) for o in owners)]
+                if len(roots) == 1:
+                    return Callee("func", func=roots[0].methods[f.attr], recv=f.value, recv_type=roots[0])
             return Callee("method", name=f.attr, recv=f.value)
         if isinstance(f, ast.Lambda):
             return Callee("func", func=self.p.lambda_info(func, f))
